@@ -1529,7 +1529,11 @@ func AggrFunExpr(query *Query, current Map, expr sqlparser.AggrFunc, opts ...Exp
 	}
 	rs, ok := query.singletonExecutions[name]
 	if !ok {
-		slice, err := AggrFuncArgReader(query, map[string]any{"*": query.from}, sqlparser.Exprs{Exprs: expr.GetArgs()})
+		rows := query.from
+		if all, ok := current["*"].([]any); ok {
+			rows = all
+		}
+		slice, err := AggrFuncArgReader(query, map[string]any{"*": rows}, sqlparser.Exprs{Exprs: expr.GetArgs()})
 		if err != nil {
 			return nil, err
 		}
@@ -1697,7 +1701,8 @@ func ExecSelect(query *Query, current []any) ([]any, error) {
 	// a select list made only of aggregates collapses the whole table into one row,
 	// unless the rows are groups, in which case every group yields its own row
 	if IsSelectAllAggregate(query) && len(query.groupDefinition) == 0 {
-		rs, err := SelectExpr(query, nil, &query.selectDefinition)
+		// the aggregates range over the rows that passed WHERE
+		rs, err := SelectExpr(query, Map{"*": current}, &query.selectDefinition)
 		if err != nil {
 			return nil, err
 		}
